@@ -11,6 +11,8 @@ CONSTANTS
   BurnVeto = TRUE
   BurnPrevote = TRUE
   BurnQuorum = FALSE
+  ParamKeys = {"sendDefault", "send", "tax", "burnVeto", "burnPrevote", "burnQuorum", "minDep", "erc20"}
+  MaxParamChanges = 1
   Seeded = TRUE
   Defects = {}
 INVARIANT MInv_P
